@@ -27,7 +27,7 @@ BUDGET = {
 RULE = (
     "cases: (ids) 1-3 concurrent creator tasks per side x 1-6 creations each (newchannel / remote_exec) with 0-3 line "
     "preemptions aimed at the allocator; (cycles) 10-400 (thorough: up to 3000) lockstep conversations with generated "
-    "creator side, nesting and ending (close by creator / receiver / both, drop by one or both, callback + close, callback + drop with the peer holding / closing with an error / having a callback of its own), "
+    "creator side, nesting and ending (close by creator / receiver / both, drop by one or both, callback + close, callback + drop with the peer holding / closing with an error / having a callback of its own, a failing close(<unserialisable error>) before the proper close or drop), "
     "gc every k cycles; transports popen/bare/socket/proxy, backends thread/main_thread_only/gevent.  Non-trivial = "
     "at least two channels were created under a schedule with real choices; distinct = distinct event-log digests."
 )
